@@ -1,7 +1,18 @@
 //! Checks on p2panda-auth: C31 (convergence), C32 (merge laws), C33 (authorisation).
 use explorer::{Args, Report};
 
+// Paths that the source-included `/repo/p2panda-auth/src/group/crdt/state.rs` (see c32.rs) imports
+// from its crate root: they are the real p2panda-auth items.
+#[allow(unused_imports)]
+pub use p2panda_auth::Access;
+pub mod traits {
+    #[allow(unused_imports)]
+    pub use p2panda_auth::traits::Conditions;
+}
+
 mod c31;
+mod c32;
+mod c33;
 mod model;
 
 fn main() {
@@ -9,6 +20,8 @@ fn main() {
     explorer::quiet_panics();
     let code = match args.property.as_str() {
         "C31" => c31::run(Report::new(&args, "model_checking")),
+        "C32" => c32::run(Report::new(&args, "model_checking")),
+        "C33" => c33::run(Report::new(&args, "model_checking")),
         other => {
             eprintln!("vh-auth: unknown property {other}");
             2
